@@ -2,33 +2,46 @@
   Property C03 — an edit changes exactly what it names and nothing else; read-only operations never
   change what a later save writes.
 
-  Model: Uefi/Visitors.lean.  Abstraction: a volume is the ordered list of its files as
-  (GUID, type, attributes, body) with pad files dropped (`absFiles`, Uefi/AbsLemmas.lean).
+  Model: Uefi/Visitors.lean on the shared UEFI core (Uefi/Parse.lean, Uefi/Assemble.lean).
+  Abstraction: a volume is the ordered list of its files as (GUID, type, attributes, body) with pad
+  files dropped (`absFiles`, Uefi/AbsLemmas.lean); `avTree` lists the abstract volumes of a whole
+  tree, nested ones included, in the order a reader meets them.
 
-  Proved here, for every tree, every predicate and every position (no bound):
-    * Find reports exactly the matches, each once (`find_reports_matches`) — the match-once rule with
-      the `currentFile` bookkeeping collapses to a local property of the file (`fileHit`);
-    * each edit refines to plain list surgery on the abstract volume (`insert_refines`,
-      `remove_refines`), at exactly the matched position (`insert_position`);
-    * the frame: an edit touches no descriptor, no region other than the BIOS region, no padding, no
-      volume header or buffer, and returns every subtree in which nothing matched identical
-      (`frame`, `frame_quiet`) — the bytes of those parts are what `save` copies (C01);
-    * `replace_pe32_exact`: only PE32 sections change, to header ++ new body;
-    * `remove_pad_offsets`: a same-size pad file leaves every start offset of the volume unchanged;
-    * `readonly_noop`; the GUID text form parses back to the same bytes (`guid_text_roundtrip`).
-  Not proved (checks.d `unproved`; carried by T2 and the oracles on the saved bytes):
-    `reparse_abs` (a reader of the *saved file* sees the abstract result — needs parse ∘ asm, i.e. the
-    C01/C06 round-trip theorems of the shared core) and the byte-level form of the frame.
-  Forced hypothesis met on the way: a volume whose list an edit leaves *empty* is not re-assembled
-  (`asmFv` returns the old buffer) — on the real code this is finding F26 (known_findings.json).
+  Proved here, for every tree, predicate, position, hook set (no bound on sizes, counts, depth):
+   A  the operations on the tree
+    * Find reports exactly the matches, each once (`find_reports_matches`, `find_file_once`);
+    * each edit refines to list surgery on the abstract volume (`insert_position`, `insert_refines`,
+      `remove_refines`); `replace_pe32_exact`; `remove_pad_keeps_offsets`, `remove_pad_same_size`;
+    * the tree-level frame (`frame`, `frame_quiet`); `readonly_noop`; `guid_text_roundtrip`;
+   B  what a reader of the SAVED bytes sees (follow-up wp-c03b; lemmas in Uefi/Exact*.lean, on the
+      round-trip theorems of C01)
+    * `asm_closure`: Assemble maps the invariant of edited trees into the reference grammar;
+    * `reparse_abs`: for every tree reachable from a parsed (well-formed, tidy) image of the reference
+      grammar — flash image with descriptor, bare BIOS region, single volume — by edits and saves,
+      fiano's reader takes the saved bytes back into a tree with the abstract volumes of the written tree;
+    * end to end at the volume: `insert_saved`, `remove_saved`, `replace_pe32_saved`, `remove_pad_saved`;
+   C  the bytes (follow-up wp-c03b)
+    * `frame_bytes`, `frame_bytes_flash`: `asm (op t)` and `asm t` agree on every byte outside the
+      volumes below which the edit worked, with explicit offsets (any tree, any hooks, any editor);
+    * `frame_inside_volume`, `remove_pad_bytes`: inside the re-laid volume, the bytes up to the end of
+      the common file prefix, and every byte outside the replaced file's own range.
+  Forced hypotheses met on the way (reports/C03.md): an emptied volume is not re-assembled (F26,
+  `keep…`); a volume left with exactly 24 free bytes was not read back (repaired by 8039e86 — the
+  grammar of C01 still excludes it, hence `GoodFv`); a header-only file written at the very end of a
+  full volume is not seen by the reader (`GoodFv`); 2^30 or more files in one volume, 16 MiB and more
+  (`GoodFv`, `tidy`).
 -/
-import FianoModel.Uefi.EditLemmas
+import FianoModel.Uefi.ExactCor
+import FianoModel.Uefi.ExactReparse
+import FianoModel.Uefi.ExactFrameFlash
 import FianoModel.Uefi.GuidLemmas
 import FianoModel.Uefi.EditTie
+import FianoModel.Uefi.ExactTie
 
 namespace Fiano.Uefi.C03
-open EditArith
-open Fiano Fiano.Uefi
+open Fiano Fiano.Uefi Fiano.Uefi.Exact
+
+/-! ## A — the operations on the tree -/
 
 /-- **Find reports exactly the matches, each once**: as many volume entries as volumes that satisfy
     the predicate, as many file entries as files that match in the local sense — the file itself
@@ -50,18 +63,9 @@ theorem insert_position (p : Pred) (fs : List File) (i : Nat) (h : hitIndex p fs
     (∃ f, fs[i]? = some f ∧ fileHit p f = true) ∧ ∀ j f, j < i → fs[j]? = some f → fileHit p f = false :=
   hitIndex_spec p fs i h
 
-/-- **refinement of Insert / replace_ffs** to list surgery on the abstract volume: same files, same
-    order, same bodies, plus exactly the new file at the named place (minus exactly the matched file
-    for replace_ffs); pad files are transparent -/
+/-- **refinement of Insert / replace_ffs** to list surgery on the abstract volume -/
 theorem insert_refines (w : Where) (nf : File) (fs : List File) (i : Nat) (hi : i < fs.length) :
-    absFiles (insertAt w nf fs i) =
-      match w with
-      | .front => absFiles [nf] ++ absFiles fs
-      | .end_ => absFiles fs ++ absFiles [nf]
-      | .dxe => absFiles fs ++ absFiles [nf]
-      | .after => absFiles (fs.take (i + 1)) ++ absFiles [nf] ++ absFiles (fs.drop (i + 1))
-      | .before => absFiles (fs.take i) ++ absFiles [nf] ++ absFiles (fs.drop i)
-      | .replace => absFiles (fs.take i) ++ absFiles [nf] ++ absFiles (fs.drop (i + 1)) :=
+    absFiles (insertAt w nf fs i) = insertSpec w nf fs i :=
   insert_abs w nf fs i hi
 
 /-- **refinement of Remove / remove_pad**: the abstract volume loses exactly the matched files,
@@ -71,14 +75,14 @@ theorem remove_refines (p : Pred) (pad : Bool) (pol : UInt8) (fs fs' : List File
     absFiles fs' = absFiles (fs.filter (fun f => !fileHit p f)) :=
   remove_abs p pad pol fs fs' h
 
-/-- **frame**: an edit leaves the descriptor, the flash size, every region that is not the BIOS
-    region, the BIOS region's length / buffer / position, every padding, and the header fields and
-    buffer of every volume exactly as they were -/
+/-- **frame, tree level**: an edit leaves the descriptor, the flash size, every region that is not
+    the BIOS region, the BIOS region's length / buffer / position, every padding, and the header
+    fields and buffer of every volume exactly as they were -/
 theorem frame (E : Editor) (t t' : Tree) (h : rwTree E t = .ok t') : TreeFrame E t t' :=
   rwTree_frame E t t' h
 
 /-- **frame, untouched subtrees**: a volume (a file, a section) below which the editor does not fire
-    is returned identical — so `save` assembles it from the same tree as an unedited save would -/
+    is returned identical -/
 theorem frame_quiet (E : Editor) :
     (∀ v, quietFv E v = true → rwFv E v = .ok v) ∧ (∀ f, quietFile E f = true → rwFile E f = .ok (some f)) ∧
     (∀ s, quietSection E s = true → rwSection E s = .ok s) :=
@@ -99,19 +103,20 @@ theorem replace_pe32_exact (body : Bytes) (s s' : Section) (h : pe32Section body
     without data alignment (the pad file of `remove_pad`) leaves every start offset unchanged -/
 theorem remove_pad_keeps_offsets (pre post : List (Nat × Bytes)) (x x' : Nat × Bytes) (off : Nat)
     (hsize : x'.2.length = x.2.length) (hal : alignmentOf x'.1 = 1)
-    (hsat : fileStart (layEnd pre off) x.1 = roundUp (layEnd pre off) 8) :
+    (hsat : fileStart (layEndM pre off) x.1 = Spec.alignUp (layEndM pre off) 8) :
     starts (pre ++ x' :: post) off = starts (pre ++ x :: post) off :=
   remove_pad_offsets pre post x x' off hsize hal hsat
 
 /-- the pad file `remove_pad` creates has the size of the file it replaces and no data alignment -/
-theorem remove_pad_same_size (pol : UInt8) (size : Nat) (h24 : 24 ≤ size) (h64 : size < 2 ^ 64) (hp : pol = 0xFF ∨ pol = 0) :
-    ∃ f, mkPadFile pol size = .ok f ∧ f.buf.length = size ∧ Valid.dataAlign f.info.attrs = 1 := by
-  obtain ⟨f, h1, h2, _, _, h5, _⟩ := mkPadFile_valid pol size h24 h64 hp
-  exact ⟨f, h1, h2, h5⟩
+theorem remove_pad_same_size (pol : UInt8) (size : Nat) (h24 : 24 ≤ size) (hp : pol = 0xFF ∨ pol = 0) :
+    ∃ f, mkPadFile pol size = .ok f ∧ f.buf.length = size ∧ alignmentOf f.info.attrs = 1 := by
+  obtain ⟨f, h1, h2, h3, _⟩ := mkPadFile_size pol size h24 hp
+  exact ⟨f, h1, h2, h3⟩
 
 /-- **`readonly_noop`**: find, json, table, count, validate, cat, dump, comment return the run state
     they were given — tree, process state and written files (in the model they cannot do otherwise;
-    the code side is `EditTie.readonly_inventory` plus the T2 oracle `read-only-ops-change-nothing`) -/
+    the code side is `EditTie.readonly_inventory`, `EditTie.readonly_effects` plus the T2 oracles
+    `read-only-ops-change-nothing` and `read-only-deep-dump`) -/
 theorem readonly_noop (h : Hooks) (r : ReadOnly) (s s' : Run) (hs : step h (.ro r) s = .ok s') : s' = s := by
   unfold step at hs
   split at hs
@@ -127,7 +132,188 @@ theorem guid_text_roundtrip (g g' : Bytes) (h : g.length = 16) (h' : g'.length =
     guidParse (guidText g) = some g ∧ (guidText g = guidText g' → g = g') :=
   ⟨guidParse_guidText g h, guidText_injective g g' h h'⟩
 
-/-! ### non-vacuity -/
+/-! ## B — what a reader of the saved bytes sees -/
+
+/-- **`asm_closure`** (volume level, any nesting depth): Assemble on a volume node that satisfies the
+    invariant of edited trees — arbitrary file list surgery, pad files, replaced PE32 sections, nested
+    volumes that grow — leaves the process state alone, yields a node that satisfies the invariant
+    again, and writes the serialisation of a well-formed volume of the reference grammar whose
+    faithful tree shows, volume by volume, the abstract file lists of the written node -/
+theorem asm_closure (v v' : Fv) (st st' : St) (hc : CanonFv v) (hp : st.pol = 0xFF) (hf : st.ffs3 = false)
+    (h : asmFv Hooks.none v st = .ok (v', st')) (hg : GoodFv v') :
+    st' = st ∧ CanonFv v' ∧
+      ∃ vi, Spec.wfFv vi = true ∧ v'.buf = Spec.serFv vi ∧ ∀ off rz, avFv (Spec.treeFv vi off rz) = avFv v' := by
+  obtain ⟨h1, h2, _, _, _, _, vi, h7, h8, h9⟩ := asm_canon_fv v hc st v' st' hp hf h hg
+  exact ⟨h1, h2, vi, h7, h8, h9⟩
+
+/-- every tree the parser reports for a well-formed, tidy image of the grammar starts an edit run -/
+theorem reach_parsed (i : Spec.Img) (h : Spec.WF i) (ht : tidy i = true) : Reach (Spec.tree i) :=
+  Reach.parsed i h ht
+
+/-- Insert (file- or volume-matched), Remove / remove_pad, ReplacePE32 keep a tree inside `Reach`:
+    the new file satisfies the invariant (a file of the grammar, a pad file), the volume selector
+    accepts only volumes that have files, the PE32 body is below 4 GiB, no volume is emptied -/
+theorem reach_ops (t t' : Tree) (hr : Reach t) :
+    (∀ p w nf, CanonFile nf → (∀ v, p.fv v = true → v.files ≠ []) →
+        keepTree (insertFvEditor p w nf) t → keepTree (insertFileEditor p w nf) t →
+        insertOp p w nf t = .ok t' → Reach t') ∧
+    (∀ p pad, keepTree (removeEditor p pad 0xFF) t → removeOp p pad 0xFF t = .ok t' → Reach t') ∧
+    (∀ p body, body.length + 8 < 0xFFFFFFFF → keepTree (pe32Editor p body) t →
+        replacePe32Op p body t = .ok t' → Reach t') := by
+  refine ⟨?_, ?_, ?_⟩
+  · intro p w nf hn hsel hk1 hk2 h
+    unfold insertOp at h
+    split at h
+    · cases h
+    · cases h
+    · split at h
+      · exact Reach.edit _ t t' (insertFvEditor_ok p w nf hn hsel) hr hk1 h
+      · exact Reach.edit _ t t' (insertFileEditor_ok p w nf hn) hr hk2 h
+  · intro p pad hk h
+    exact Reach.edit _ t t' (removeEditor_ok p pad) hr hk h
+  · intro p body hb hk h
+    unfold replacePe32Op at h
+    split at h
+    · cases h
+    · split at h
+      · exact Reach.edit _ t t' (pe32Editor_ok p body hb) hr hk h
+      · cases h
+
+/-- `save` keeps a tree inside `Reach` -/
+theorem reach_save (t t' : Tree) (st st' : St) (hr : Reach t) (hp : st.pol = 0xFF) (hf : st.ffs3 = false)
+    (h : asmTreeWith Hooks.none t st = .ok (t', st')) (hg : GoodTree t') : Reach t' :=
+  Reach.saved t t' st st' hr hp hf h hg
+
+/-- **`reparse_abs`** : `abs (parse (asm t).buf) = abs (asm t)` for every reachable tree.  For every
+    tree `t` reachable from the parsed tree of a well-formed, tidy image of the reference grammar (flash
+    image with descriptor and any region layout, bare BIOS region, single volume) by Insert / Remove /
+    remove_pad / ReplacePE32 and intermediate saves: if Assemble succeeds and the written tree is
+    `GoodTree`, the saved bytes are the serialisation of a well-formed image of the grammar, fiano's
+    reader parses them, and the tree it reports shows — volume by volume, nested volumes included, pad
+    files transparent — exactly the abstract file lists of the written tree.
+    Hypotheses: `tidy` (input: sectioned files below 16 MiB, leaf files below 2^62 bytes, first block
+    size of FFS volumes a power of two in [8, 2^31]); `keepTree` at each edit (no volume is emptied —
+    finding F26); `GoodTree` (written tree: every buffer below 16 MiB, fewer than 2^30 files per volume,
+    no volume left with exactly 24 free bytes, no header-only file at the very end of a full volume —
+    finding F52); erase polarity 1, no hooks (no compressed sections: the grammar of C01). -/
+theorem reparse_abs (t t' : Tree) (st st' : St) (hr : Reach t) (hp : st.pol = 0xFF) (hf : st.ffs3 = false)
+    (h : asmTreeWith Hooks.none t st = .ok (t', st')) (hg : GoodTree t') :
+    ∃ i', Spec.WF i' ∧ t'.buf = Spec.ser i' ∧ parse Hooks.none t'.buf = .ok (Spec.tree i') ∧
+      avTree (Spec.tree i') = avTree t' := by
+  obtain ⟨i, _, hrep⟩ := reach_rep t hr
+  obtain ⟨_, i', hw, _, hb, hpa, hav⟩ := asm_rep_tree t i st t' st' hrep hp hf h hg
+  exact ⟨i', hw, hb, hpa, hav⟩
+
+/-- an unedited save shows what was parsed: the abstract volumes of the parsed tree of a well-formed,
+    tidy image are those of the tree its save re-parses to -/
+theorem reparse_unedited (i : Spec.Img) (h : Spec.WF i) :
+    parse Hooks.none (Spec.ser i) = .ok (Spec.tree i) := Fiano.Uefi.parse_ser_all i h
+
+/-- **Insert, end to end**: the volume written after inserting `nf` at the matched index `k` is read
+    back by fiano (whatever follows it) into a volume whose abstract file list is the old list with
+    the new file at the stated place — minus exactly the matched file for replace_ffs -/
+theorem insert_saved (w : Where) (nf : File) (i : FvInfo) (buf : Bytes) (files : List File) (k : Nat) (v' : Fv)
+    (st st' : St) (hk : k < files.length) (hc : CanonFv (.mk i buf files)) (hne : files ≠ [])
+    (hs : ∀ f ∈ files, Settled f) (hnc : CanonFile nf) (hns : Settled nf)
+    (hp : st.pol = 0xFF) (hf : st.ffs3 = false)
+    (h : asmFv Hooks.none (.mk i buf (insertAt w nf files k)) st = .ok (v', st')) (hg : GoodFv v') :
+    ∃ vi, Spec.wfFv vi = true ∧ v'.buf = Spec.serFv vi ∧
+      (∀ (rest : Bytes) (off : Nat) (rz : Bool) (fuel : Nat) (st0 : St), v'.buf.length ≤ fuel →
+        (st0.pol = 0xFF ∨ st0.pol = 0xF0) →
+        parseFv Hooks.none fuel (v'.buf ++ rest) off rz st0 = .ok (Spec.treeFv vi off rz, { st0 with pol := 0xFF })) ∧
+      ∀ off rz, absFiles (Spec.treeFv vi off rz).files = insertSpec w nf files k :=
+  Exact.insert_saved w nf i buf files k v' st st' hk hc hne hs hnc hns hp hf h hg
+
+/-- **Remove / remove_pad, end to end**: the written volume is read back into the old abstract file
+    list minus exactly the matched files -/
+theorem remove_saved (p : Pred) (pad : Bool) (i : FvInfo) (buf : Bytes) (files files1 : List File) (v' : Fv)
+    (st st' : St) (hc : CanonFv (.mk i buf files)) (hne : files1 ≠ [])
+    (hrw : rwFiles (removeEditor p pad 0xFF) files = .ok files1) (hk : keepFiles (removeEditor p pad 0xFF) files)
+    (hs1 : ∀ f ∈ files1, Settled f) (hp : st.pol = 0xFF) (hf : st.ffs3 = false)
+    (h : asmFv Hooks.none (.mk i buf files1) st = .ok (v', st')) (hg : GoodFv v') :
+    ∃ vi, Spec.wfFv vi = true ∧ v'.buf = Spec.serFv vi ∧
+      (∀ (rest : Bytes) (off : Nat) (rz : Bool) (fuel : Nat) (st0 : St), v'.buf.length ≤ fuel →
+        (st0.pol = 0xFF ∨ st0.pol = 0xF0) →
+        parseFv Hooks.none fuel (v'.buf ++ rest) off rz st0 = .ok (Spec.treeFv vi off rz, { st0 with pol := 0xFF })) ∧
+      ∀ off rz, absFiles (Spec.treeFv vi off rz).files = absFiles (files.filter (fun f => !fileHit p f)) :=
+  Exact.remove_saved p pad i buf files files1 v' st st' hc hne hrw hk hs1 hp hf h hg
+
+/-- **ReplacePE32, end to end**: in the sections written for the matched file, position by position,
+    every section that is not a PE32 section is exactly what a save without the edit writes, and every
+    PE32 section is a 4- or 8-byte header followed by exactly the new body -/
+theorem replace_pe32_saved (body : Bytes) (hb : body.length + 8 < 0xFFFFFFFF) (ss ss1 ss' ss1' : List Section)
+    (st st' st1' : St) (hc : CanonSecs ss) (hpe : pe32Sections body ss = .ok ss1) (hp : st.pol = 0xFF)
+    (hf : st.ffs3 = false) (ha : asmSections Hooks.none ss st = .ok (ss', st'))
+    (ha1 : asmSections Hooks.none ss1 st = .ok (ss1', st1')) (hg : GoodSecs ss') (hg1 : GoodSecs ss1')
+    (k : Nat) (s : Section) (hk : ss[k]? = some s) :
+    ∃ s' s1', ss'[k]? = some s' ∧ ss1'[k]? = some s1' ∧
+      (s.info.type ≠ secTypePE32 → s1' = s') ∧
+      (s.info.type = secTypePE32 → ∃ hdr, s1'.buf = hdr ++ body ∧ (hdr.length = 4 ∨ hdr.length = 8) ∧ s1'.encap = []) :=
+  pe32_saved_sections body hb ss ss1 ss' ss1' st st' st1' hc hpe hp hf ha ha1 hg hg1 k s hk
+
+/-! ## C — the bytes -/
+
+/-- **`frame_bytes`** (image without flash descriptor): any tree (no invariant, no grammar), any hooks,
+    any editor.  `asm (op t)` and `asm t` have the length of the region, and agree at every offset `j`
+    that does not lie inside a top-level volume below which the editor fired; the k-th element of the
+    region starts at the sum of the buffer lengths of the elements before it (`InDirty`).  The process
+    state after the two runs is the same.  `ElemsSized`: top-level volumes cannot grow and their buffer
+    is the whole volume (true of every parsed and every assembled tree). -/
+theorem frame_bytes (h : Hooks) (E : Editor) (b : BiosRegion) (u ta ua : Tree) (st sa sb : St)
+    (hrw : rwTree E (.bios b) = .ok u) (hs : ElemsSized b.elems) (hf : st.ffs3 = false)
+    (ha : asmTreeWith h (.bios b) st = .ok (ta, sa)) (hb : asmTreeWith h u st = .ok (ua, sb)) :
+    sb = sa ∧ ta.buf.length = b.length ∧ ua.buf.length = b.length ∧
+      ∀ j, ¬ InDirty E b.elems j → ta.buf[j]? = ua.buf[j]? :=
+  tree_frame_bios h E b u ta ua st sa sb hrw hs hf ha hb
+
+/-- **`frame_bytes_flash`** (flash image with descriptor): any tree, any hooks, any editor.  The two
+    saved images are the same descriptor buffer followed by region buffers, in flash order, that are
+    pairwise identical — except those of BIOS regions, which have the same length and agree at every
+    offset (relative to the region start) outside the volumes below which the editor fired
+    (`RegFrame`, `InDirty`).  The k-th region buffer starts at the descriptor length plus the lengths of
+    the region buffers before it. -/
+theorem frame_bytes_flash (h : Hooks) (E : Editor) (f : Flash) (u ta ua : Tree) (st sa sb : St)
+    (hrw : rwTree E (.flash f) = .ok u) (hs : RegionsSized f.regions) (hf : st.ffs3 = false)
+    (ha : asmTreeWith h (.flash f) st = .ok (ta, sa)) (hb : asmTreeWith h u st = .ok (ua, sb)) :
+    sb = sa ∧ ∃ (d : Bytes) (ra rb : List Region),
+      ta.buf = d ++ (ra.map Region.buf).flatten ∧ ua.buf = d ++ (rb.map Region.buf).flatten ∧
+      Pair2 (RegFrame E f.regions) ra rb :=
+  tree_frame_flash h E f u ta ua st sa sb hrw hs hf ha hb
+
+/-- **inside the target volume, files before the edit point**: two file lists that share a prefix
+    are laid out identically up to the end of that prefix — the bytes of a re-laid top-level volume
+    from offset 60 on are `buf[:DataOffset] ++ lay … ++ erased tail` (`relayout_bytes`) -/
+theorem frame_inside_volume (i : FvInfo) (buf : Bytes) (files : List File) (st : St) (i' : FvInfo) (out : Bytes)
+    (st' : St) (h : relayoutFv i buf files st = .ok (i', out, st')) (hp : st.pol = 0xFF) (hnr : i.resizable = false)
+    (hb : layEndM (placedM files) i.dataOffset < 2 ^ 62) :
+    (∀ j, 60 ≤ j → out[j]? =
+      (buf.take i.dataOffset ++ lay (placedM files) i.dataOffset ++
+        Spec.ffs (i.length - layEndM (placedM files) i.dataOffset))[j]?) ∧
+    ∀ (pre x y : List (Nat × Bytes)) (off j : Nat), off + j < layEndM pre off → layEndM pre off < 2 ^ 62 →
+      (∀ z ∈ pre, z.2.length ≠ 0) → (lay (pre ++ x) off)[j]? = (lay (pre ++ y) off)[j]? :=
+  ⟨(relayout_bytes i buf files st i' out st' h hp hnr hb).2,
+   fun pre x y off j hj hb' hne => lay_common_prefix pre x y off j hj hb' hne⟩
+
+/-- **remove_pad, bytes**: replacing one assembled file that sat on its 8-byte boundary by a same-size
+    file without data alignment leaves every byte of the volume from offset 60 on, outside the
+    replaced file's own range, unchanged: every other file keeps its offset and its bytes -/
+theorem remove_pad_saved (i : FvInfo) (buf : Bytes) (pre post : List File) (x px : File) (st : St)
+    (i1 i2 : FvInfo) (out1 out2 : Bytes) (s1 s2 : St)
+    (h1 : relayoutFv i buf (pre ++ x :: post) st = .ok (i1, out1, s1))
+    (h2 : relayoutFv i buf (pre ++ px :: post) st = .ok (i2, out2, s2))
+    (hp : st.pol = 0xFF) (hnr : i.resizable = false)
+    (hb1 : layEndM (placedM (pre ++ x :: post)) i.dataOffset < 2 ^ 62)
+    (hsize : px.buf.length = x.buf.length) (hal : alignmentOf px.info.attrs = 1)
+    (hsat : fileStart (layEndM (placedM pre) i.dataOffset) x.info.attrs =
+      Spec.alignUp (layEndM (placedM pre) i.dataOffset) 8) :
+    ∀ j, 60 ≤ j →
+      (j < Spec.alignUp (layEndM (placedM pre) i.dataOffset) 8 ∨
+        Spec.alignUp (layEndM (placedM pre) i.dataOffset) 8 + x.buf.length ≤ j) →
+      out2[j]? = out1[j]? :=
+  remove_pad_bytes i buf pre post x px st i1 i2 out1 out2 s1 s2 h1 h2 hp hnr hb1 hsize hal hsat
+
+/-! ## non-vacuity -/
+
 def fileA : File := .mk { guid := List.replicate 16 1, ckHeader := 0, ckFile := 0, type := 7, attrs := 0, size3 := 28,
                           state := 0xF8, extSize := 28, dataOffset := 24 } (List.replicate 28 7) []
 def fileB : File := .mk { guid := List.replicate 16 2, ckHeader := 0, ckFile := 0, type := 0xF0, attrs := 0, size3 := 24,
@@ -138,5 +324,87 @@ example : hitIndex byGuid1 [fileB, fileA] = some 1 := by decide
 example : absFiles [fileB, fileA] = [absFile fileA] := by decide
 example : (match rwFiles (removeEditor byGuid1 false 0xFF) [fileB, fileA] with
     | .ok fs => absFiles fs == [] | .error _ => false) = true := by decide
+
+/-- a hand-written volume of the grammar: a checksummed driver with a UI, a depex and a raw section, a
+    pad file that aligns the next file's data to 128 bytes, an unparsed RAW file, free space -/
+def g (n : Nat) : Guid := (List.range 16).map (fun i => UInt8.ofNat (n + i))
+
+def sampleFv : Spec.FvI :=
+  .ffs (List.replicate 16 0) false 0x0004FEFF 2 0 [⟨44, 8⟩] none
+    [ .sect (g 1) 7 0x40 0xF8
+        [.ui [0x41, 0x1F600], .depex 0x13 [⟨2, some (g 7)⟩, ⟨8, none⟩], .leaf 0x19 false [1, 2, 3, 4, 5]],
+      .leaf guidFF 0x91 0xAA 0xF0 0 0xF8 false (List.replicate 64 0xFF),
+      .sect (g 2) 9 0x50 0xF8 [.version 7 [0x31], .leaf 0x10 false [0x4D, 0x5A, 9]],
+      .leaf (g 3) 0 0 1 0 0xF8 false [0xAA, 0xBB, 0xCC] ] 45
+
+def sampleImg : Spec.Img := .bios ⟨[([], sampleFv)], [1, 2, 3]⟩
+
+set_option maxRecDepth 65536 in
+theorem sample_wf : Spec.WF sampleImg := by decide
+
+set_option maxRecDepth 65536 in
+theorem sample_tidy : tidy sampleImg = true := by decide
+
+/-- `Reach` is inhabited: the parsed tree of the sample image -/
+example : Reach (Spec.tree sampleImg) := Reach.parsed sampleImg sample_wf sample_tidy
+
+/-- a flash image: 4 KiB descriptor (signature at 16, region section at 0x40, BIOS = block 3, ME = block 1),
+    ME region, a gap the table does not describe, BIOS region with the sample volume -/
+def sampleDesc : Bytes :=
+  List.replicate 16 0xFF ++ [0x5a, 0xa5, 0xf0, 0x0f] ++
+  [0, 0, 4, 0, 8, 0, 0, 0, 0, 0, 0, 0, 0, 0, 0, 0] ++ List.replicate 28 0x5A ++
+  [0x34, 0x12, 0x00, 0x10, 3, 0, 3, 0, 1, 0, 1, 0] ++ (List.replicate 13 [0xFF, 0x7F, 0, 0]).flatten ++
+  [0, 0, 0xFF, 0xFF, 0, 0, 0xFF, 0xFF, 0x18, 0x01, 0x08, 0x08] ++ List.replicate 3956 0x5A
+
+def sampleFlash : Spec.Img :=
+  .flash ⟨sampleDesc,
+    [ .me (List.replicate 4096 0xA5), .gap (List.replicate 4096 0x77),
+      .bios ⟨[([], sampleFv)], List.replicate 3744 0xFF⟩ ]⟩
+
+set_option maxRecDepth 1000000 in
+set_option maxHeartbeats 4000000 in
+theorem sampleFlash_wf : Spec.WF sampleFlash := by decide
+
+set_option maxRecDepth 65536 in
+theorem sampleFlash_tidy : tidy sampleFlash = true := by decide
+
+/-- … and so is the parsed tree of a flash image with descriptor -/
+example : Reach (Spec.tree sampleFlash) := Reach.parsed sampleFlash sampleFlash_wf sampleFlash_tidy
+
+set_option maxRecDepth 65536 in
+theorem sampleFv_wf : Spec.wfFv sampleFv = true := by decide
+
+set_option maxRecDepth 65536 in
+theorem sampleFv_tidy : tidyFv sampleFv = true := by decide
+
+/-- the hypotheses of the end-to-end corollaries hold of the sample: its volume node satisfies the
+    invariant -/
+example : CanonFv (Spec.treeFv sampleFv 0 false) := canon_treeFv sampleFv sampleFv_wf sampleFv_tidy 0 false
+
+/-- a pad file satisfies the invariant and is settled -/
+example : ∃ pf, mkPadFile 0xFF 40 = .ok pf ∧ CanonFile pf :=
+  match h : mkPadFile 0xFF 40 with
+  | .ok pf => ⟨pf, rfl, mkPadFile_canon 40 pf (by decide) h⟩
+  | .error _ => by simp [mkPadFile] at h
+
+example : Settled fileA := settled_leaf _ _ rfl
+
+/-- `GoodFv`: a written volume of 100 bytes with one 28-byte file and 40 free bytes -/
+example : GoodFv (.mk { (default : FvInfo) with freeSpace := 40 } (List.replicate 100 0) [fileA]) := by
+  unfold GoodFv GoodFiles GoodFile GoodSecs B
+  refine ⟨by decide, by decide, fun _ => ⟨by decide, fun h => by cases h⟩, ⟨by decide, trivial⟩, trivial⟩
+
+/-- `keepFiles`: removing `fileA` from `[fileB, fileA]` does not descend into a volume -/
+example : keepFiles (removeEditor byGuid1 false 0xFF) [fileB, fileA] := by
+  unfold keepFiles keepFile keepFiles keepFile keepFiles keepSections
+  exact ⟨Or.inr trivial, Or.inr trivial, trivial⟩
+
+/-- the editors satisfy `EditorOk` -/
+example : EditorOk (removeEditor byGuid1 true 0xFF) := removeEditor_ok byGuid1 true
+example : EditorOk (pe32Editor byGuid1 [0x4D, 0x5A]) := pe32Editor_ok byGuid1 _ (by decide)
+
+/-- `ElemsSized` / `InDirty`: a padding, then a volume whose buffer is the whole volume -/
+example : ElemsSized [.pad [1, 2] 0, .fv (.mk { (default : FvInfo) with length := 3 } [7, 8, 9] [])] :=
+  ⟨rfl, rfl, trivial⟩
 
 end Fiano.Uefi.C03
